@@ -164,7 +164,9 @@ func runRedial(t *testing.T, c rcase) (err error) {
 		var mu sync.Mutex
 		var carriers []*carrier
 		dialed := make(chan *carrier, 128)
-		dialErr := errors.New("dial failed")
+		// (a wrapped error: its concrete type differs from the connection's own "closed" error, as a real
+		// dialer's *net.OpError does)
+		dialErr := fmt.Errorf("dial failed: %w", errors.New("connection refused"))
 		next := 0
 		dial := func(ctx context.Context) (net.PacketConn, error) {
 			mu.Lock()
